@@ -351,6 +351,71 @@ fn entry_points_with_short_writers() -> (u64, Vec<Viol>) {
             Ok(Err(_)) => {}
         }
     }
+    // a writer that reports one transient error (WouldBlock / Interrupted / TimedOut) at its k-th
+    // call, having taken nothing, and accepts everything afterwards: the call may fail, but if it
+    // reports success every byte must have arrived, in order (no hole where the error was)
+    let tjobs: Vec<(usize, usize, usize, usize)> = (0..2).flat_map(|e| (0..2).flat_map(move |w| (0..3).flat_map(move |k| (1..=3).map(move |at| (e, w, k, at))))).collect();
+    let tres: Vec<Option<Viol>> = tjobs
+        .par_iter()
+        .map(|&(entry, which, kind, at)| {
+            struct Transient {
+                store: std::sync::Arc<std::sync::Mutex<Vec<u8>>>,
+                calls: usize,
+                at: usize,
+                kind: std::io::ErrorKind,
+            }
+            impl Write for Transient {
+                fn write(&mut self, buf: &[u8]) -> std::io::Result<usize> {
+                    self.calls += 1;
+                    if self.calls == self.at {
+                        return Err(std::io::Error::new(self.kind, "transient"));
+                    }
+                    self.store.lock().unwrap().extend_from_slice(buf);
+                    Ok(buf.len())
+                }
+                fn flush(&mut self) -> std::io::Result<()> {
+                    Ok(())
+                }
+            }
+            let kinds = [std::io::ErrorKind::WouldBlock, std::io::ErrorKind::Interrupted, std::io::ErrorKind::TimedOut];
+            let (po, pe) = (payload(30_000, b'0'), payload(30_000, b'a'));
+            let script = format!("printf '%s' '{}'; printf '%s' '{}' >&2", String::from_utf8_lossy(&po), String::from_utf8_lossy(&pe));
+            let so = std::sync::Arc::new(std::sync::Mutex::new(Vec::new()));
+            let se = std::sync::Arc::new(std::sync::Mutex::new(Vec::new()));
+            let mk = |store: &std::sync::Arc<std::sync::Mutex<Vec<u8>>>, faulty: bool| Transient { store: store.clone(), calls: 0, at: if faulty { at } else { usize::MAX }, kind: kinds[kind] };
+            let mut cmd = Command::new("/bin/sh");
+            cmd.arg("-c").arg(&script).stdin(std::process::Stdio::null());
+            let mut returned: Option<(Vec<u8>, Vec<u8>)> = None;
+            let r = if entry == 0 {
+                cmd.spawn_and_write_streams(mk(&so, which == 0), mk(&se, which == 1)).and_then(|mut c| c.wait()).map(|_| ())
+            } else {
+                cmd.output_and_write_streams(mk(&so, which == 0), mk(&se, which == 1)).map(|o| {
+                    returned = Some((o.stdout, o.stderr));
+                })
+            };
+            if r.is_err() {
+                return None;
+            }
+            let name = ["spawn_and_write_streams", "output_and_write_streams"][entry];
+            let (go, ge) = (so.lock().unwrap().clone(), se.lock().unwrap().clone());
+            let replay = json!({"kind": "entry-short", "transient": [entry, which, kind, at]});
+            if go != po || ge != pe {
+                return Some(("entry:bytes-lost-after-transient-writer-error".to_string(), format!("{name}: the {} writer reported {:?} once at call {at} and the call still reported success, but the writers hold {}/{} of 30000/30000 bytes", ["stdout", "stderr"][which], kinds[kind], go.len(), ge.len()), replay));
+            }
+            if let Some((ro, re)) = returned {
+                if ro != po || re != pe {
+                    return Some(("entry:returned-output-differs".to_string(), format!("{name}: after a transient {:?} of the {} writer the returned Output holds {}/{} bytes of 30000/30000", kinds[kind], ["stdout", "stderr"][which], ro.len(), re.len()), replay));
+                }
+            }
+            None
+        })
+        .collect();
+    for v in tres {
+        runs += 1;
+        if let Some(v) = v {
+            viols.push(v);
+        }
+    }
     (runs, viols)
 }
 
@@ -1056,7 +1121,7 @@ fn main() {
     rep.cov("evaluations", schedules + wcalls);
     rep.cov("distinct_nontrivial", schedules + wstates);
     rep.cov("determinism_replays", 1);
-    rep.cov("rule", "writers: every string over {marker,a,b} up to the length bound x every chunking (plus empty writes for short strings) x 4 mapping functions x finish by drop/unwrap through the real MappedWrite, and TeeWrite incl. failing targets; both command entry points x 5x5 target behaviours (accept-all, <=1, <=7 bytes per call, LineWriter over either) x 3x3 stream sizes handed the targets directly; pipe system: PipeModel explored exhaustively with stateright-style BFS over all scripts (PAR must be deadlock-free and lossless, SEQ variants must deadlock = negative control), then every maximal sequence of environment actions (token, grant out, grant err) of the model is driven through the real output_and_write_streams with a scripted child (4096-byte pipes) and gated sinks, waiting for exactly the events the model predicts");
+    rep.cov("rule", "writers: every string over {marker,a,b} up to the length bound x every chunking (plus empty writes for short strings) x 4 mapping functions x finish by drop/unwrap through the real MappedWrite, and TeeWrite incl. failing targets; both command entry points x 5x5 target behaviours (accept-all, <=1, <=7 bytes per call, LineWriter over either) x 3x3 stream sizes handed the targets directly; a target reporting one transient error (WouldBlock, Interrupted, TimedOut) at its 1st..3rd call on either stream x both entry points (success only with every byte delivered); pipe system: PipeModel explored exhaustively with stateright-style BFS over all scripts (PAR must be deadlock-free and lossless, SEQ variants must deadlock = negative control), then every maximal sequence of environment actions (token, grant out, grant err) of the model is driven through the real output_and_write_streams with a scripted child (4096-byte pipes) and gated sinks, waiting for exactly the events the model predicts");
     rep.cov("bound", json!({"writer_string_len": if args.thorough() {8} else {7}, "model_script_len": mlen, "driven_script_len": slen, "write_sizes": [1, 2048, 4096], "pipe_capacity": CAP, "schedules_per_script_cap": per_script_cap}));
     rep.cov("exhaustive", capped == 0);
     if capped > 0 {
